@@ -161,6 +161,16 @@ impl<'a> Gen<'a> {
                 format!("{}\n\n{}", tagged(self.rng, &format!("L{n}a:"), a, wide), format!("L{n}c"))
             }
             3 if self.o.ansi => "\x1b[1m\x1b[0m".to_string(),
+            // a text whose FIRST line has no visible character (but is not the empty message): a leading
+            // newline, or a line of ANSI sequences only, with visible text below it
+            4 if self.o.multiline && self.o.empty_lines => {
+                let c = pick_cols(self.rng, self.w);
+                format!("\n{}", tagged(self.rng, &format!("L{n}b:"), c, wide))
+            }
+            5 if self.o.multiline && self.o.ansi => {
+                let c = pick_cols(self.rng, self.w);
+                format!("\x1b[1m\x1b[0m\n{}", tagged(self.rng, &format!("L{n}b:"), c, wide))
+            }
             _ => {
                 let c = pick_cols(self.rng, self.w);
                 let t = tagged(self.rng, &format!("L{n}:"), c, wide);
@@ -492,13 +502,16 @@ pub fn gen_history(rng: &mut Rng, o: &GenOpts) -> (WorldCfg, Vec<Op>) {
             ops.push(Op::DropBar(b));
         }
     }
-    if let Some(b) = live.first().copied() {
-        let t = g.log_text();
-        ops.push(Op::Println(b, t));
-    }
-    if o.multi {
-        let t = g.log_text();
-        ops.push(Op::MpPrintln(t));
+    // (with no bar left on the screen, log lines follow each other directly: two or three in a row)
+    for _ in 0..g.rng.range(1, 3) {
+        if let Some(b) = live.first().copied() {
+            let t = g.log_text();
+            ops.push(Op::Println(b, t));
+        }
+        if o.multi {
+            let t = g.log_text();
+            ops.push(Op::MpPrintln(t));
+        }
     }
 
     // height: either from the candidates, or generous enough for any frame of this history
